@@ -202,8 +202,6 @@ def builtin(eng: Engine, e, st: State, name: str, args: List[V], kwargs):
         if isinstance(v, VList):
             return [(st, VScalar(v.n, T.int))]
         if isinstance(v, (VSet, VDict)) or (isinstance(v, VScalar) and v.ty.kind == "obj"):
-            if isinstance(v, VDict) and v.n is not None:
-                return [(st, VScalar(v.n, T.int))]
             arr = eng.set_of(v, st, e).arr
             for f in eng.card_facts(arr):
                 st.assume(f)
@@ -287,6 +285,8 @@ def method(eng: Engine, e: ast.Call, st: State, recv: V, m: str, args: List[V], 
     # ---- user objects: contract of the method
     if isinstance(recv, VScalar) and recv.ty.kind == "obj":
         c = eng.registry.method_contract(eng, recv.ty.name, m)
+        if c is None:
+            c = eng.registry.method_contract(eng, recv.ty.name, m, nargs=len(args))
         if c is None:
             raise Unsupported("no contract for method %s.%s" % (recv.ty.name, m), e)
         return apply_contract(eng, st, c, args, kwargs, e, self_obj=recv)
